@@ -36,6 +36,10 @@ def congruent(e1, e2, v):
     return jeq(j1, j2)
 
 
+def must_be_equal(e1, e2):
+    return (e1 == e2) and (e2 == e1)
+
+
 def rebuild_equal(make):
     a = make()
     b = make()
@@ -103,12 +107,27 @@ PAIRS = {
     "class_vs_class": ("m: int, n: int, r: bool", [], 'Object.inline("M", properties={"a": Property(Integer(minimum=m), required=r)})', 'Object.inline("M", properties={"a": Property(Integer(minimum=n), required=True)})', DV, DPRE, "quick"),
     "class_names": ("m: int, n: int", [], 'Object.inline("M", properties={"a": Property(Integer(minimum=m))})', 'Object.inline("N", properties={"a": Property(Integer(minimum=n))})', DV, DPRE, "thorough"),
     "class_vs_subclass": ("m: int", [], '_P(m)', '_Sub(m)', DV, DPRE, "quick"),
+    "class_description": ("d1: bool, d2: bool, m: int", [], 'Object.inline("M", properties={"a": Property(Integer(minimum=m))}, description=("x" if d1 else "y"))', 'Object.inline("M", properties={"a": Property(Integer(minimum=m))}, description=("x" if d2 else "y"))', DV, DPRE, "quick"),
+    "element_description": ("d1: bool, d2: bool, m: int", [], 'Integer(minimum=m, description=("x" if d1 else "y"))', 'Integer(minimum=m, description=("x" if d2 else NotPassed()))', SV, SVPRE, "quick"),
+    "inherited_kw_vs_flat_without": ("m: int", [], '_inheriting(m)', 'Object.inline("K", properties={"a": Property(Integer(minimum=m))})', DV, DPRE, "quick"),
+    "inherited_kw_vs_flat_with": ("m: int, same: bool", [], '_inheriting(m)', 'Object.inline("K", properties={"a": Property(Integer(minimum=m))}, minProperties=(1 if same else 2), required=["b"], propertyNames=String(maxLength=2))', DV, DPRE, "quick"),
     "class_keywords": ("m: int, n: int, b: bool", [], 'Object.inline("M", minProperties=m, additionalProperties=b)', 'Object.inline("M", minProperties=n, additionalProperties=True)', DV, DPRE + ["m >= 0", "n >= 0"], "thorough"),
     "class_vs_element": ("m: int", [], 'Object.inline("M", properties={"a": Property(Integer(minimum=m))})', 'Element(properties={"a": Property(Integer(minimum=m))})', DV, DPRE, "thorough"),
     "pattern_props": ("m: int, n: int", [], 'Element(patternProperties={"^a": Integer(minimum=m)})', 'Element(patternProperties={"^a": Integer(minimum=n)})', DV, DPRE, "thorough"),
     "dependencies": ("s1: bool", [], 'Element(dependencies={"a": ["b"]})', 'Element(dependencies={"a": (["b"] if s1 else Element(required=["b"]))})', DV, DPRE, "thorough"),
     "parsed_vs_dsl": ("m: int, n: int", [], 'parse_s({"type": "integer", "minimum": m})', 'Integer(minimum=n)', SV, SVPRE, "quick"),
 }
+
+
+def _inheriting(m):
+    """class K that INHERITS its class keywords from a parent model class"""
+    from vf.common import Object, ObjectMeta, Property, Integer, String
+    from statham.schema.elements.meta import ObjectClassDict
+
+    Base = Object.inline("Base", minProperties=1, required=["b"], propertyNames=String(maxLength=2))
+    cd = ObjectClassDict()
+    cd["a"] = Property(Integer(minimum=m))
+    return ObjectMeta("K", (Base,), cd)
 
 
 def _P(m):
@@ -146,6 +165,9 @@ return rebuild_equal(make)
 """
         hargs1 = hargs
         hs.append(mk(f"c17_rebuild_{name}", hargs1, pre + [p for p in excl], body, tier="thorough" if tier == "thorough" else "quick", timeout=40, group="rebuild"))
+    hs.append(mk("c17_inherited_equals_flat_copy", "m: int", [],
+                 'return must_be_equal(_inheriting(m), Object.inline("K", properties={"a": Property(Integer(minimum=m))}, minProperties=1, required=["b"], propertyNames=String(maxLength=2)))',
+                 timeout=60, group="rebuild", covers="a class inheriting its keywords equals an independently built flat class with the same keywords"))
     # reachability: equal pair reached, unequal pair reached
     hs.append(mk("c17__equal", "m: int, n: int", [], "return not (Integer(minimum=m) == Integer(minimum=n))", kind="witness", timeout=20))
     hs.append(mk("c17__unequal", "m: int, n: int", [], "return Integer(minimum=m) == Integer(minimum=n)", kind="witness", timeout=20))
